@@ -1,13 +1,210 @@
 /-
   C12 — profile subscriptions are all-or-nothing, kept alive, and cleanly ended.
-  Property theorems only (helper lemmas are in `Upnp/Lemmas/C12*.lean`).
+
+  Property theorems only (helper lemmas: `Upnp/Lemmas/C12*.lean`).  The model
+  (`Upnp/Model/C12Profile.lean`) transcribes profiles/profile.py on top of the event handler's
+  routing-table effects; `Upnp.C12.run` is the very function the correspondence driver runs, with the
+  configuration `genCfg` the translator extracted from the source on this run.  The clause predicates
+  (`subOkPost`, `subFailPost`, `cleanSnap`, the `spin` / `cb` events) are the ones the run-time judge
+  `Upnp.C12.ok` (Spec/C12.lean) applies to the implementation's trace.
+
+  All theorems hold for every state reachable by caller operations (`reachable_consistent`), every
+  publisher script (reactions, granted timeouts, latencies), every number of services, every point in
+  time — no bounds.
 -/
 import Upnp.Model.C12Cfg
-import Upnp.Model.C12Profile
+import Upnp.Lemmas.C12Ops
 import Upnp.Spec.C12
 namespace Upnp.C12
+open Upnp PyDict
 
-/-- the shapes the model transcribes are the shapes the translator found -/
-theorem gen_shapes_pinned : Gen.C12Profile.shapesPinned = true := by decide
+/-! ### what the translator found in profiles/profile.py (a source change breaks these) -/
+
+/-- the renewal round renews overdue subscriptions too (no stale-skip), keeps the SID in the
+    bookkeeping while its renewal is in flight, and a finished renewal task is forgotten -/
+theorem gen_shapes : genCfg.skipStale = false ∧ genCfg.delEarly = false ∧ genCfg.clearDone = true
+    ∧ Gen.C12Profile.shapesPinned = true := by decide
+
+/-- the renewal margin is positive and shorter than the timeout asked for -/
+theorem gen_constants : 0 < genCfg.tol ∧ genCfg.tol < genCfg.subTimeout := by decide
+
+/-! ### reachable states -/
+
+/-- every state reachable by any sequence of caller operations against any publisher is consistent:
+    bookkeeping and routing table are dictionaries, every routed SID is in the bookkeeping, an in-flight
+    renewal's SID is still in the bookkeeping -/
+theorem reachable_consistent (n : Nat) (script : List Entry) (dflt : Entry) (ops : List Op) :
+    Core (run genCfg n script dflt ops) ∧ TaskOk (run genCfg n script dflt ops) :=
+  run_core genCfg gen_shapes.2.1 n script dflt ops
+
+/-! ### the renewal loop always yields -/
+
+/-- **loop_yields**: from the loop head the renewal loop reaches an await (a sleep or a request) or
+    ends within two iterations — the fuel `|subscriptions| + 2` of the run-to-quiescence closure is never
+    exhausted, i.e. no `spin` is emitted.  For every state, every clock value, every deadline. -/
+theorem loop_yields (cfg : Cfg) (hs : cfg.skipStale = false) (st : St) (hn : (keys st.subs).Nodup) :
+    (runHead cfg (headFuel st) st).halted = st.halted := by
+  unfold headFuel; exact runHead_no_spin cfg hs _ st hn
+
+theorem loop_yields_gen (st : St) (h : Core st) : (runHead genCfg (headFuel st) st).halted = st.halted :=
+  loop_yields genCfg gen_shapes.1 st h.subsNodup
+
+/-- non-vacuity, and the reason for the hypothesis: with the stale-skip of the unrepaired code a single
+    subscription whose deadline is more than the tolerance in the past makes the loop spin (F12a) -/
+example :
+    let cfg : Cfg := { genCfg with skipStale := true }
+    let st : St := { now := 131000, subs := [(1, 62000)], routed := [(1, 0)] }
+    (runHead cfg (headFuel st) st).halted = true ∧ (runHead genCfg (headFuel st) st).halted = false := by
+  decide
+
+/-! ### clean unsubscribe -/
+
+/-- **clean_unsubscribe**: after `async_unsubscribe_services` returns — at every point it can be
+    issued: task not started, sleeping, awaiting a renewal reply, awaiting the fall-back SUBSCRIBE's reply,
+    ended — the bookkeeping is empty, no SID at all is routed, the renewal task is gone, and the
+    snapshot the model emits satisfies the judge's `cleanSnap` for every set of SIDs ever granted. -/
+theorem clean_unsubscribe (cfg : Cfg) (hd : cfg.delEarly = false) (hs : cfg.skipStale = false)
+    (st : St) (h : Core st) (ht : TaskOk st) (hh : st.halted = false) :
+    (doUnsub cfg st).subs = [] ∧ (doUnsub cfg st).routed = [] ∧ (doUnsub cfg st).task = .none
+    ∧ (doUnsub cfg st).halted = false
+    ∧ ∃ t av rest, (doUnsub cfg st).rtrace = .snap t [] [] false av :: .ret t .unsub none :: rest
+        ∧ ∀ ever, cleanSnap ever [] [] false = true := by
+  have hset : (settle cfg (st.emit (.call st.now .unsub))).halted = false := by
+    have := settle_halted cfg hs (st.emit (.call st.now .unsub)) h.subsNodup
+    rw [this]; exact hh
+  have hc := (settle_core cfg hd _ (h.emit (.call st.now .unsub)) (by simpa [TaskOk, St.emit] using ht)).1
+  have hu := unsubscribeServices_clean _ hc
+  have hhalt : (doUnsub cfg st).halted = false := by
+    unfold doUnsub
+    simp only [hh, Bool.false_eq_true, if_false, hset]
+    show (unsubscribeServices _).halted = false
+    rw [hu.2.2.2.1]; exact hset
+  have := doUnsub_clean cfg hd st h ht hhalt
+  refine ⟨this.1, this.2.1, this.2.2, hhalt, ?_⟩
+  unfold doUnsub
+  simp only [hh, Bool.false_eq_true, if_false, hset]
+  generalize unsubscribeServices (settle cfg (st.emit (.call st.now .unsub))) = U at hu ⊢
+  refine ⟨U.now, U.avail, U.rtrace, ?_, fun ever => by simp [cleanSnap]⟩
+  simp only [St.snap, St.emit, hu.1, hu.2.1, hu.2.2.1, keys, List.map_nil, sortSids_nil, TaskPc.alive]
+
+theorem clean_unsubscribe_gen (n : Nat) (script : List Entry) (dflt : Entry) (ops : List Op)
+    (hh : (run genCfg n script dflt ops).halted = false) :
+    (doUnsub genCfg (run genCfg n script dflt ops)).subs = []
+    ∧ (doUnsub genCfg (run genCfg n script dflt ops)).routed = []
+    ∧ (doUnsub genCfg (run genCfg n script dflt ops)).task = .none :=
+  let r := reachable_consistent n script dflt ops
+  let c := clean_unsubscribe genCfg gen_shapes.2.1 gen_shapes.1 _ r.1 r.2 hh
+  ⟨c.1, c.2.1, c.2.2.1⟩
+
+/-- non-vacuity: unsubscribe while the renewal reply of SID 1 is outstanding (the F12b interleaving);
+    with the early delete of the unrepaired code SID 1 stays routed -/
+example :
+    let script : List Entry := [⟨.ok, .sec 61, 0⟩, ⟨.ok, .sec 61, 50000⟩]
+    let ops := [Op.sub true, Op.wait 10125, Op.unsub]
+    (run genCfg 1 script ⟨.ok, .sec 1800, 0⟩ ops).routed = []
+    ∧ (run { genCfg with delEarly := true } 1 script ⟨.ok, .sec 1800, 0⟩ ops).routed = [(1, 0)] := by
+  decide
+
+/-- nothing is subscribed and no task exists -/
+def Quiet (st : St) : Prop := st.subs = [] ∧ st.task = .none ∧ st.halted = false
+
+/-- **no further requests**: once unsubscribed, waiting (any duration) and unsubscribing again send
+    nothing — the trace grows by events none of which is a request — until the caller subscribes again -/
+theorem quiet_after_unsubscribe (cfg : Cfg) (n : Nat) (st : St) (hq : Quiet st) (op : Op)
+    (hop : ∀ a, op ≠ .sub a) :
+    Quiet (step cfg n st op) ∧ ∃ evs, (step cfg n st op).rtrace = evs ++ st.rtrace ∧ ∀ e ∈ evs, e.isReq = false := by
+  obtain ⟨hs, htk, hh⟩ := hq
+  cases op with
+  | sub a => exact absurd rfl (hop a)
+  | wait d =>
+    have hk : ∃ k, waitFuel d st = k + 1 := by
+      refine ⟨waitFuel d st - 1, ?_⟩
+      have : 0 < waitFuel d st := by unfold waitFuel; exact Nat.mul_pos (by omega) (by omega)
+      omega
+    obtain ⟨k, hk⟩ := hk
+    simp only [step, doWait, hh, Bool.false_eq_true, if_false, hk, waitLoop, htk]
+    refine ⟨⟨?_, ?_, ?_⟩, [_], rfl, ?_⟩
+    · simpa [St.snap, St.emit] using hs
+    · simp [St.snap, St.emit]
+    · simp [St.snap, St.emit, hh]
+    · simp [Ev.isReq]
+  | unsub =>
+    simp only [step, doUnsub, hh, Bool.false_eq_true, if_false, settle, St.emit, htk, unsubscribeServices, hs, keys,
+      List.map_nil, unsubAll, St.snap]
+    refine ⟨⟨rfl, rfl, ?_⟩, [_, _, _], rfl, ?_⟩
+    · simp [hh]
+    · simp [Ev.isReq]
+
+/-- the state after `clean_unsubscribe` is `Quiet`, so both theorems chain: after unsubscribing returns no
+    further request is sent for any continuation of waits and unsubscribes -/
+theorem quiet_run (cfg : Cfg) (n : Nat) (ops : List Op) (hops : ∀ op ∈ ops, ∀ a, op ≠ .sub a) :
+    ∀ st, Quiet st → ∃ evs, (ops.foldl (step cfg n) st).rtrace = evs ++ st.rtrace ∧ ∀ e ∈ evs, e.isReq = false := by
+  induction ops with
+  | nil => intro st _; exact ⟨[], rfl, by simp⟩
+  | cons op r ih =>
+    intro st hq
+    obtain ⟨hq', e1, h1, h2⟩ := quiet_after_unsubscribe cfg n st hq op (hops op List.mem_cons_self)
+    obtain ⟨e2, g1, g2⟩ := ih (fun o ho => hops o (List.mem_cons_of_mem _ ho)) _ hq'
+    refine ⟨e2 ++ e1, by simp only [List.foldl_cons]; rw [g1, h1, List.append_assoc], ?_⟩
+    intro e he
+    rcases List.mem_append.1 he with he | he
+    · exact g2 e he
+    · exact h2 e he
+
+/-! ### a failed renewal is reported exactly once -/
+
+/-- **failure_reported_once**: when the reply of an in-flight renewal is delivered,
+    * a renewal that finally failed (unreachable, or refused and the fall-back SUBSCRIBE failed too)
+      appends exactly one callback with an empty change list for that service, directly after the
+      request log, and `available` is cleared iff the failure was a connection error;
+    * an accepted renewal (or accepted fall-back) appends no callback and leaves `available` alone;
+    * a refused renewal is followed by the fall-back SUBSCRIBE for the same service, no callback yet. -/
+theorem failure_reported_once (cfg : Cfg) (st : St) (rnow : Time) (rest : List (Sid × Time)) (sid : Sid) (svc : Nat)
+    (fb : Bool) (at_ : Time) (reac : Reac) (tmo : Tmo) (granted : Option Sid)
+    (ht : st.task = .inflight rnow rest sid svc fb at_ reac tmo granted) :
+    (reac.accepts = false → (fb = true ∨ reac = .unreach) →
+        ∃ more, (deliver cfg st).rtrace = more ++ .cb st.now svc 0 (st.avail && reac != .unreach) :: st.rtrace
+          ∧ (∀ e ∈ more, e.isCb = false) ∧ (deliver cfg st).avail = (st.avail && reac != .unreach))
+    ∧ (reac.accepts = true →
+        ∃ more, (deliver cfg st).rtrace = more ++ st.rtrace ∧ (∀ e ∈ more, e.isCb = false)
+          ∧ (deliver cfg st).avail = st.avail)
+    ∧ (reac.accepts = false → fb = false → reac ≠ .unreach →
+        ∃ r, (deliver cfg st).rtrace = .req r :: st.rtrace ∧ r.kind = .sub ∧ r.svc = svc ∧ r.t = st.now
+          ∧ (deliver cfg st).avail = st.avail) := by
+  unfold deliver
+  simp only [ht]
+  refine ⟨?_, ?_, ?_⟩
+  · intro hacc hfin
+    simp only [hacc, Bool.false_eq_true, if_false]
+    rcases hfin with hfb | hun
+    · simp only [hfb, if_true]
+      obtain ⟨more, h1, h2, h3⟩ := cont_emits cfg rnow rest (failed st sid svc reac)
+      exact ⟨more, h1, h2, h3⟩
+    · by_cases hfb : fb = true
+      · simp only [hfb, if_true]
+        obtain ⟨more, h1, h2, h3⟩ := cont_emits cfg rnow rest (failed st sid svc reac)
+        exact ⟨more, h1, h2, h3⟩
+      · simp only [hfb, Bool.false_eq_true, if_false, hun, beq_self_eq_true, if_true]
+        obtain ⟨more, h1, h2, h3⟩ := cont_emits cfg rnow rest
+          (failed { st with routed := erase st.routed sid, task := .inflight rnow rest sid svc false at_ .unreach tmo granted } sid svc .unreach)
+        exact ⟨more, h1, h2, h3⟩
+  · intro hacc
+    simp only [hacc, if_true]
+    obtain ⟨more, h1, h2, h3⟩ := cont_emits cfg rnow rest
+      { st with routed := set (if granted.getD sid != sid then erase st.routed sid else st.routed) (granted.getD sid) svc,
+                subs := set (erase st.subs sid) (granted.getD sid) (rnow + ms (tmo.secs cfg)),
+                task := .inflight rnow rest sid svc fb at_ reac tmo granted }
+    exact ⟨more, h1, h2, h3⟩
+  · intro hacc hfb hun
+    have hun' : (reac == Reac.unreach) = false := by simp [hun]
+    simp only [hacc, Bool.false_eq_true, if_false, hfb, hun']
+    exact ⟨_, rfl, rfl, rfl, rfl, rfl⟩
+
+/-- non-vacuity: an unreachable publisher at the first renewal: one callback, device marked unavailable -/
+example :
+    let script : List Entry := [⟨.ok, .sec 61, 0⟩, ⟨.unreach, .sec 61, 250⟩]
+    (run genCfg 1 script ⟨.ok, .sec 1800, 0⟩ [Op.sub true, Op.wait 10125]).trace.filter Ev.isCb
+      = [.cb 1250 0 0 false] := by
+  decide
 
 end Upnp.C12
